@@ -16,6 +16,6 @@ def run(ctx):
     ctx.assumptions += [
         "exact clauses: independent / complete-dependence copulas and Clayton at theta = 1 (rational function) on integer lattices with +-infinity; the code's values are read as reduced fractions (denominator <= 10^5, 1e-11 relative)",
         "thin clauses: Clayton at theta in {0.5, 0.7, 2, 5, ...} x eta: values quantised to 1e-7 on the lattice, slack 12 quanta on volumes and margins",
-        "mixed derivative (thin): Clayton theta <= 2, two points per orthant with magnitudes in [0.5, 2], central mixed difference quotient of the copula as the reference (2e-3 relative); the code's convention (sign of the product instead of the product) is the known finding C11-mixed-derivative-convention",
+        "mixed derivative (thin): Clayton theta <= 2, two points per orthant with magnitudes in [0.5, 2], central mixed difference quotient of the copula as the reference (2e-3 relative); the code's convention (the derivative itself instead of the derivative times the product) is the known finding C11-mixed-derivative-convention",
         "not decided: groundedness / d-increasingness / margins off the lattice and for other theta",
     ]
